@@ -14,6 +14,7 @@ import (
 	"io"
 	"math/big"
 	"os"
+	"reflect"
 	"strings"
 	"sync"
 	"testing"
@@ -231,6 +232,7 @@ type Observed struct {
 	Verified []bool   `json:"verified,omitempty"` // BLS verification against the spec root
 	Roots    []string `json:"roots,omitempty"`    // harness-computed spec signing roots (hex)
 	Domains  []string `json:"domain_calls,omitempty"`
+	Changed  bool     `json:"changed_after_return,omitempty"` // the returned signatures were different when the request returned
 	// in the sample of a later request of a session: what the earlier requests gave
 	Earlier []Observed `json:"earlier_requests,omitempty"`
 }
@@ -319,6 +321,16 @@ func runInput(t *testing.T, in Input, level zerolog.Level) []Observed {
 	}
 	steps := in.steps()
 	res := make([]Observed, len(steps))
+	// what the requests returned is looked at when the whole session is over
+	later := make([]func() Observed, len(steps))
+	look := func() []Observed {
+		for k, f := range later {
+			if f != nil {
+				res[k] = f()
+			}
+		}
+		return res
+	}
 	if in.Overlap {
 		envs := make([]*stepEnv, len(steps))
 		for k := range steps {
@@ -326,17 +338,17 @@ func runInput(t *testing.T, in Input, level zerolog.Level) []Observed {
 			envs[k].park, envs[k].parkAt = steps[k].Park, steps[k].ParkAt
 			envs[k].entered, envs[k].release = make(chan struct{}, 1), make(chan struct{})
 		}
-		runOverlapped(in, envs, func(k int) { res[k] = runStepEnv(t, svc, envs[k], rec, pool, bases, in.view(k)) },
+		runOverlapped(in, envs, func(k int) { later[k] = callStep(t, svc, envs[k], rec, pool, bases, in.view(k)) },
 			func(msg string) { t.Fatalf("%s", msg) })
-		return res
+		return look()
 	}
 	if !in.Concurrent {
 		for k := range steps {
-			res[k] = runStep(t, svc, dp, rec, pool, bases, in.view(k))
+			later[k] = callStep(t, svc, newStepEnv(in.view(k)), rec, pool, bases, in.view(k))
 		}
-		return res
+		return look()
 	}
-	res[0] = runStep(t, svc, dp, rec, pool, bases, in.view(0))
+	later[0] = callStep(t, svc, newStepEnv(in.view(0)), rec, pool, bases, in.view(0))
 	var wg sync.WaitGroup
 	start := make(chan struct{})
 	for k := 1; k < len(steps); k++ {
@@ -344,12 +356,12 @@ func runInput(t *testing.T, in Input, level zerolog.Level) []Observed {
 		go func(k int) {
 			defer wg.Done()
 			<-start
-			res[k] = runStep(t, svc, dp, rec, pool, bases, in.view(k))
+			later[k] = callStep(t, svc, newStepEnv(in.view(k)), rec, pool, bases, in.view(k))
 		}(k)
 	}
 	close(start)
 	wg.Wait()
-	return res
+	return look()
 }
 
 // runStep makes one request (in is a single-request view of the session) to the session's service.
@@ -363,6 +375,14 @@ func newStepEnv(in Input) *stepEnv {
 }
 
 func runStepEnv(t *testing.T, svc *standardsigner.Service, env *stepEnv, rec *recorder, pool []e2wtypes.Account, bases []*base, in Input) Observed {
+	return callStep(t, svc, env, rec, pool, bases, in)()
+}
+
+// callStep makes the request and returns the function that looks at what came back.  In a session
+// that function is called when ALL the requests of the session are over: the slice of signatures a
+// request returned is its caller's, and must still hold that request's signatures when later
+// requests have been handled by the same service.
+func callStep(t *testing.T, svc *standardsigner.Service, env *stepEnv, rec *recorder, pool []e2wtypes.Account, bases []*base, in Input) func() Observed {
 	ctx := withStepEnv(context.Background(), env)
 	accounts := make([]e2wtypes.Account, len(in.Batch))
 	for i, p := range in.Batch {
@@ -452,12 +472,24 @@ func runStepEnv(t *testing.T, svc *standardsigner.Service, env *stepEnv, rec *re
 	obs.Domains = append([]string(nil), env.calls...)
 	env.mu.Unlock()
 	if obs.Outcome == "panic" {
-		return obs
+		return func() Observed { return obs }
 	}
 	if callErr != nil {
 		obs.Outcome, obs.Err = "err", callErr.Error()
-		return obs
+		return func() Observed { return obs }
 	}
+	atReturn := observe(obs, env, rec, bases, in, sigs)
+	return func() Observed {
+		o := observe(obs, env, rec, bases, in, sigs)
+		if !reflect.DeepEqual(o, atReturn) {
+			o.Changed = true // the slice the request returned was written to after it was returned
+		}
+		return o
+	}
+}
+
+// observe: provenance and BLS verification of the signatures that a request returned.
+func observe(obs Observed, env *stepEnv, rec *recorder, bases []*base, in Input, sigs []phase0.BLSSignature) Observed {
 	obs.Outcome = "ok"
 	roots := specRoots(in)
 	var zero phase0.BLSSignature
@@ -649,13 +681,13 @@ func TestC06(t *testing.T) {
 			col.Count(fmt.Sprintf("batch-size:%d", min(len(v.Batch), 9)))
 			id := col.NextID()
 			upto := in.prefix(j)
-			if in.Overlap {
+			if in.Overlap || obs.Changed {
 				// what a request of an overlapped session is handed depends on the requests made while
 				// its account call waited: the whole session is what has to be replayed
 				upto = in
 			}
 			key, _ := json.Marshal(upto)
-			if in.Overlap {
+			if in.Overlap || obs.Changed {
 				key = append(key, fmt.Sprintf("#%d", j)...)
 			}
 			sample := obs
